@@ -730,8 +730,14 @@ class Interp:
             # assumption: the mapping stores no None values
             return not self.decide(("contains", t[2], t[1]))
         if t[0] in ("tuple", "list", "dict", "bool", "closure", "fstr",
-                    "newlist", "newdict", "binop"):
+                    "newlist", "newdict", "binop", "slice", "copyof"):
             return False
+        if t[0] == "call" and t[1][0] == "attr" and t[1][2] in (
+                "lower", "upper", "strip", "lstrip", "rstrip", "split",
+                "rsplit", "replace", "join", "format", "group", "items",
+                "keys", "values", "copy", "startswith", "endswith"):
+            return False      # these never return None (group() excepted
+                              # for optional groups: not used with is None)
         return self.decide(("isnone", t))
 
     # ---------------------------------------------------------- expressions
@@ -778,6 +784,9 @@ class Interp:
                 self.path.builders[self.fresh_counter] = []
                 return ("newlist", self.fresh_counter)
             return ("list", tuple(self.eval(e, env) for e in node.elts))
+        if isinstance(node, ast.Set):
+            # a set display used for membership: its elements
+            return ("tuple", tuple(self.eval(e, env) for e in node.elts))
         if isinstance(node, ast.Dict):
             if not node.keys:
                 self.fresh_counter += 1
@@ -1260,7 +1269,8 @@ class Interp:
         # inlining
         if self.depth < self.max_inline:
             repo = [c for c in callees if c.kind == "repo"]
-            if len(repo) == 1 and len(callees) == 1 \
+            if repo and len(repo) == len(callees) and all(
+                    c.fn is repo[0].fn for c in repo) \
                     and self.inline(repo[0].fn):
                 c = repo[0]
                 recv = None
@@ -1323,7 +1333,37 @@ class Interp:
             return isinstance(obj, type) and issubclass(obj, BaseException)
         return False
 
+    LOG_METHODS = {"debug", "info", "warning", "error", "exception",
+                   "critical", "log", "isEnabledFor"}
+
+    def _is_logger(self, t):
+        """A module-level logger (name = logging.getLogger(...)) or a direct
+        logging.getLogger(...) result."""
+        if t[0] == "call" and t[1] == ("global", "logging.getLogger"):
+            return True
+        if t[0] == "global" and "." in t[1]:
+            modname, _, nm = t[1].rpartition(".")
+            mod = self.m.modules.get(modname)
+            if mod is not None:
+                vals = mod.assigns.get(nm, ())
+                return len(vals) == 1 and isinstance(vals[0], ast.Call) \
+                    and src(vals[0].func) in ("logging.getLogger",
+                                              "getLogger")
+        return False
+
     def is_pure(self, ft):
+        # diagnostics through the logging package are not behaviour the
+        # properties speak about
+        if ft[0] == "global" and ft[1].rpartition(".")[2] in \
+                self.LOG_METHODS and (
+                    self._is_logger(("global", ft[1].rpartition(".")[0]))
+                    or ft[1].rpartition(".")[0] == "logging"):
+            return True
+        if ft[0] == "attr" and ft[2] in self.LOG_METHODS \
+                and self._is_logger(ft[1]):
+            return True
+        if ft == ("global", "logging.getLogger"):
+            return True
         if ft[0] == "global" and ft[1].startswith("builtins.") \
                 and ft[1][9:] in self.PURE_FUNCS:
             return True
